@@ -173,7 +173,10 @@ def pred_c06(prog, ob, crashed=False):
     suspended = {}      # framer -> True when its last logged outline was shorter than its entered frames
     tab = tag_table(prog)
     fms0 = {fm["name"]: fm for fm in prog["framers"]}
+    nrec = -1
     for ti, e in enumerate(ob["trace"]):
+        if e[0] == "rec":
+            nrec += 1
         if e[0] == "send":
             fmn = [n for n, t in tid_of.items() if t == e[2]][0]
             entered = [k for k, v in state.items() if v == "in" and k[0] == fmn]
@@ -220,7 +223,16 @@ def pred_c06(prog, ob, crashed=False):
                         "(entries must run top-down)" % (tk, fmn, frn, over))
             state[k] = "in"
         else:
+            if crashed and nrec == crashed[0]:
+                # the injected fault was raised by THIS exit action: the exit was interrupted, the frame is still
+                # entered and the final sweep exits it (again from its first exit action)
+                continue
             if cur != "in":
+                if crashed and nrec > crashed[0]:
+                    # after a fault in the middle of a transition the sweep exits the whole (unchanged) active
+                    # outline, including frames the interrupted transition had already exited: outside the
+                    # statement (no fault-free history does this)
+                    continue
                 return ("exit-without-enter", "tick %d: frame %s.%s exited without being entered" % (tk, fmn, frn))
             below = [g for (f2, g), v in state.items() if f2 == fmn and v == "in" and g != frn
                      and frn in head_of(fms0[fmn], g)[:-1]]
